@@ -283,6 +283,17 @@ CHECKS = {
         design_ref="DESIGN.md 5 C01",
         note=NOTE_COMMON + " The oracle is the eager run of the same code (a change breaking both modes identically is invisible here; C02/C06/C07 compare different code paths); dask's scheduler is trusted; tolerance 5e-5.",
     ),
+    "C32": dict(
+        text=("TLC enumerates the call space of Ownership.tla (10 atoms-taking callees x 6 kinds of atoms incl. atoms outside the "
+              "cell, tiny off-diagonal cell noise, constraints and partial pbc; 4 measurement types x complex/real x lazy/eager) "
+              "and every enumerated call is made on the real code; for measurements every public method with an entry in the "
+              "harness' argument table is called (methods without an entry are listed in the evidence as not exercised).  The "
+              "frame condition snapshot(input) before = after (positions, cell, numbers, pbc, tags, constraints, info / array "
+              "bytes, dtype, metadata, axes metadata) is decided by OwnershipTrace.tla for every call, whether or not it raises."),
+        technique="TLA+ frame condition over a TLC-enumerated call space; snapshots of caller-owned inputs around every real call validated by a TLC trace spec",
+        design_ref="DESIGN.md 5 C32",
+        note=NOTE_COMMON + " The state machine content of this property is a single frame condition; TLC's share is the enumeration and the verdicts.",
+    ),
 }
 
 NOT_APPLICABLE = {
